@@ -229,8 +229,14 @@ def primitives(ctx, cr):
             ctx.ob(lrule, lrule + ":with_location", ok, "with_location must keep the pointer and replace only the location: %s" % [ai.fmt_val(v, cr)[:80] for v in rets][:1], fn=f)
         else:
             seq = [(k, (v[1] if v and v[0] in ("chr", "str", "sym") else v)) for k, v in pushes]
-            ok = bool(rets) and all(v[0] == "enum" and v[3][1] == ("sym", "LOC") for v in rets) and seq[:2] == [("push", "/"), ("push_str", "ARG")] or \
-                (bool(rets) and all(v[0] == "enum" and v[3][1] == ("sym", "LOC") for v in rets) and [k for k, _ in seq] == ["push", "push_str"] and seq[0][1] == "/")
+            keeps_loc = bool(rets) and all(v[0] == "enum" and v[3][1] == ("sym", "LOC") for v in rets)
+            # either a copy of the pointer followed by '/' and the part, or a fresh buffer filled with pointer, '/', part
+            body_ = [(k, str(v).rstrip("*")) for k, v in seq]
+            has_ptr = any("PTR" in ai.fmt_val(v[3][0]) for v in rets if v[0] == "enum" and v[3])
+            if body_[:1] == [("push_str", "PTR")]:
+                body_ = body_[1:]
+                has_ptr = True
+            ok = keeps_loc and has_ptr and len(body_) == 2 and body_[0][1] == "/" and body_[1] == ("push_str", "ARG")
             ctx.ob(rule, rule + ":extend_str", ok, "extend_str must append '/' then the part to a copy of the parent's pointer and keep the location: pushes %s" % seq, fn=f,
                    sample={"appends": [str(x) for x in seq]})
     for name in ("Path::extend_string", "Path::extend_usize"):
